@@ -362,9 +362,15 @@ func runC18(cfg Config) {
 			case 2:
 				b = append(b, fname(name)...)
 				b = append(b, entry(0o120777)...)
-				tgt := []string{"/", "..", "../outside", "/tmp", "sibling"}[rng.Intn(5)]
+				tgt := []string{"/", "..", "../outside", "/tmp", "sibling", "../sentinel", "../outside/file", "../outside/created", "../created"}[rng.Intn(9)]
 				b = append(b, symlink(tgt)...)
 				names++
+				if rng.Intn(2) == 0 { // the same name again, as a regular file
+					b = append(b, fname(name)...)
+					b = append(b, entry(0o100600)...)
+					b = append(b, payload([]byte("through the link?"))...)
+					names++
+				}
 			case 3, 4:
 				b = append(b, fname(name)...)
 				b = append(b, entry(0o040755)...)
@@ -442,7 +448,7 @@ func snapshotOutside(sandbox string) string {
 		s := rel + ":" + info.Mode().String()
 		if info.Mode().IsRegular() {
 			b, _ := os.ReadFile(p)
-			s += ":" + string(b)
+			s += ":" + string(b) + ":" + info.ModTime().UTC().Format("2006-01-02T15:04:05")
 		}
 		out = append(out, s)
 		return nil
